@@ -393,11 +393,45 @@ func ZZH4eRepeatedBuilds() {
 	ns := 2 + sym.Choose("nstmt", 2)
 	ne := 2 + sym.Choose("nexpr", 2)
 	pb := parser.NewBuilder(s.LexerBuilder())
-	for i := 0; i < ns; i++ {
-		pb.UseStatementInterceptor(passStmt(&slog, i))
+	// installed directly or through plugins, in any interleaving: 0 all direct, 1 all through plugins, 2 / 3
+	// alternating (direct first / plugin first), 4 one plugin that registers the first, installs an inner plugin
+	// for the middle ones and registers the last itself
+	mode := sym.Choose("install", 5)
+	viaPlugin := func(i int) bool {
+		return mode == 1 || (mode == 2 && i%2 == 1) || (mode == 3 && i%2 == 0)
 	}
-	for i := 0; i < ne; i++ {
-		pb.UseExpressionInterceptor(passExpr(&elog, i))
+	if mode == 4 {
+		pb.Install(func(b *parser.Builder) {
+			b.UseStatementInterceptor(passStmt(&slog, 0))
+			b.UseExpressionInterceptor(passExpr(&elog, 0))
+			b.Install(func(in *parser.Builder) {
+				for i := 1; i < ns-1; i++ {
+					in.UseStatementInterceptor(passStmt(&slog, i))
+				}
+				for i := 1; i < ne-1; i++ {
+					in.UseExpressionInterceptor(passExpr(&elog, i))
+				}
+			})
+			b.UseStatementInterceptor(passStmt(&slog, ns-1))
+			b.UseExpressionInterceptor(passExpr(&elog, ne-1))
+		})
+	} else {
+		for i := 0; i < ns; i++ {
+			ic := passStmt(&slog, i)
+			if viaPlugin(i) {
+				pb.Install(func(b *parser.Builder) { b.UseStatementInterceptor(ic) })
+			} else {
+				pb.UseStatementInterceptor(ic)
+			}
+		}
+		for i := 0; i < ne; i++ {
+			ic := passExpr(&elog, i)
+			if viaPlugin(i) {
+				pb.Install(func(b *parser.Builder) { b.UseExpressionInterceptor(ic) })
+			} else {
+				pb.UseExpressionInterceptor(ic)
+			}
+		}
 	}
 	builds := sym.Param("builds", 3)
 	var first []int
